@@ -13,6 +13,10 @@ type RootSet interface {
 
 type SchemaSet struct {
 	Packages map[string]*Package
+
+	// registered lists the refs of the set in the order they were created, for
+	// passes over the whole set which must not depend on map order.
+	registered []*RefSchema
 }
 
 func newSchemaSet() *SchemaSet {
@@ -44,6 +48,7 @@ func (ss *SchemaSet) refTo(pkg, schema string) (*RefSchema, bool) {
 		Schema:  schema,
 	}
 	refPackage.Schemas[schema] = refSchema
+	ss.registered = append(ss.registered, refSchema)
 
 	return refSchema, false
 }
